@@ -55,6 +55,59 @@ def sh(cmd, cwd=None, timeout=1800, env=None):
         return 124, out + '\nTIMEOUT'
 
 
+# problems of the harness's own instrumentation (a private field it reads is gone): the run is not evidence of anything
+HARNESS_ERRORS = []
+
+
+def harness_error(what):
+    if what not in HARNESS_ERRORS and len(HARNESS_ERRORS) < 20:
+        HARNESS_ERRORS.append(what)
+
+
+def raised_in_harness(exc):
+    """was the exception raised by a statement of the harness itself (not inside the library or the interpreter's
+    libraries called by the library)?"""
+    tb = exc.__traceback__
+    last = None
+    while tb is not None:
+        last = tb
+        tb = tb.tb_next
+    if last is None:
+        return False
+    fn = os.path.abspath(last.tb_frame.f_code.co_filename)
+    return fn.startswith(os.path.join(VERIF, 'harness') + os.sep)
+
+
+def gen_files_needed(prop, model_targets):
+    """the coq/gen/*.v files in the dependency closure of props/<prop>.v and of the check's model/corr targets
+    (from coq_makefile's dependency file); None if that cannot be determined"""
+    dep = os.path.join(COQ, '.Makefile.d')
+    try:
+        text = open(dep).read().replace('\\\n', ' ')
+    except OSError:
+        return None
+    graph = {}
+    for line in text.split('\n'):
+        if ':' not in line:
+            continue
+        lhs, rhs = line.split(':', 1)
+        srcs = [x for x in rhs.split() if x.endswith('.vo') or x.endswith('.v')]
+        for t in lhs.split():
+            if t.endswith('.vo'):
+                graph.setdefault(t, set()).update(x for x in srcs if x.endswith('.vo'))
+    todo = ['props/%s.vo' % prop] + list(model_targets)
+    seen = set()
+    while todo:
+        t = todo.pop()
+        if t in seen:
+            continue
+        seen.add(t)
+        todo.extend(graph.get(t, ()))
+    if 'props/%s.vo' % prop not in graph:
+        return None
+    return {os.path.basename(t)[:-1] for t in seen if t.startswith('gen/')}
+
+
 def ensure_makefile():
     mk = os.path.join(COQ, 'Makefile')
     cp = os.path.join(COQ, '_CoqProject')
